@@ -25,9 +25,7 @@ use futures::{
 };
 use std::{collections::VecDeque, sync::Arc, time::SystemTime};
 
-use super::error::{InternalError, QuotaExceeded};
-
-const ERRMSG_HANDLE_DROPPED: &str = "Unable to complete async operation.";
+use super::error::QuotaExceeded;
 
 struct Session {
     awaiting_ack: VecDeque<(usize, oneshot::Sender<Result<RxPacket, MqttError>>)>,
@@ -116,25 +114,22 @@ where
         session: &mut Session,
         msg: ContextMessage,
     ) -> Result<(), MqttError> {
+        // Note: the caller may have dropped (cancelled) the future of an operation at any point.
+        // Failing to hand a result to an abandoned operation is not a connection error, hence
+        // the results of `send` on the response channels are ignored.
         match msg {
             ContextMessage::FireAndForget(msg) => {
                 if let Err(err) = Self::validate_packet_size(connection, msg.packet.as_ref()) {
-                    msg.response_channel
-                        .send(Err(err))
-                        .map_err(|_| InternalError::from(ERRMSG_HANDLE_DROPPED))?;
+                    let _ = msg.response_channel.send(Err(err));
                     return Ok(());
                 }
 
                 tx.write(msg.packet.freeze().as_ref()).await?;
-                msg.response_channel
-                    .send(Ok(()))
-                    .map_err(|_| InternalError::from(ERRMSG_HANDLE_DROPPED))?;
+                let _ = msg.response_channel.send(Ok(()));
             }
             ContextMessage::AwaitAck(mut msg) => {
                 if let Err(err) = Self::validate_packet_size(connection, msg.packet.as_ref()) {
-                    msg.response_channel
-                        .send(Err(err))
-                        .map_err(|_| InternalError::from(ERRMSG_HANDLE_DROPPED))?;
+                    let _ = msg.response_channel.send(Err(err));
                     return Ok(());
                 }
 
@@ -142,9 +137,7 @@ where
 
                 if packet_id == PublishTx::PACKET_ID {
                     if connection.send_quota == 0 {
-                        msg.response_channel
-                            .send(Err(QuotaExceeded.into()))
-                            .map_err(|_| InternalError::from(ERRMSG_HANDLE_DROPPED))?;
+                        let _ = msg.response_channel.send(Err(QuotaExceeded.into()));
                         return Ok(());
                     }
 
@@ -180,9 +173,7 @@ where
             }
             ContextMessage::Subscribe(msg) => {
                 if let Err(err) = Self::validate_packet_size(connection, msg.packet.as_ref()) {
-                    msg.response_channel
-                        .send(Err(err))
-                        .map_err(|_| InternalError::from(ERRMSG_HANDLE_DROPPED))?;
+                    let _ = msg.response_channel.send(Err(err));
                     return Ok(());
                 }
 
@@ -306,9 +297,7 @@ where
                     utils::linear_search_by_key(&session.awaiting_ack, action_id)
                         .and_then(|pos| session.awaiting_ack.remove(pos))
                 {
-                    sender
-                        .send(Ok(rx_packet))
-                        .map_err(|_| InternalError::from(ERRMSG_HANDLE_DROPPED))?;
+                    let _ = sender.send(Ok(rx_packet));
                 }
             }
             RxPacket::Pubcomp(pubcomp) => {
@@ -326,9 +315,7 @@ where
                     utils::linear_search_by_key(&session.awaiting_ack, action_id)
                         .and_then(|pos| session.awaiting_ack.remove(pos))
                 {
-                    sender
-                        .send(Ok(rx_packet))
-                        .map_err(|_| InternalError::from(ERRMSG_HANDLE_DROPPED))?;
+                    let _ = sender.send(Ok(rx_packet));
                 }
             }
             RxPacket::Pubrec(pubrec) => {
@@ -346,9 +333,7 @@ where
                     utils::linear_search_by_key(&session.awaiting_ack, action_id)
                         .and_then(|pos| session.awaiting_ack.remove(pos))
                 {
-                    sender
-                        .send(Ok(rx_packet))
-                        .map_err(|_| InternalError::from(ERRMSG_HANDLE_DROPPED))?;
+                    let _ = sender.send(Ok(rx_packet));
                 }
             }
             RxPacket::Pubrel(pubrel) => {
@@ -363,9 +348,7 @@ where
                     utils::linear_search_by_key(&session.awaiting_ack, action_id)
                         .and_then(|pos| session.awaiting_ack.remove(pos))
                 {
-                    sender
-                        .send(Ok(other))
-                        .map_err(|_| InternalError::from(ERRMSG_HANDLE_DROPPED))?;
+                    let _ = sender.send(Ok(other));
                 }
             }
         }
